@@ -34,6 +34,18 @@ def gen(rng, tier):
             hit.append("X0:%02x" % bx)
         for h in hit[:1]:
             cases.append(Case("acct.new %064x" % k, tags=("pubkey-shape", h)))
+    # inputs that are the TEXT of a key rather than the key: the hex digits `export` prints (64 bytes; 66 with 0x; upper
+    # case), decimal digits, base64 — a 64- or 66-byte string is not a 32-byte secret, whatever its bytes spell; and
+    # 32-byte secrets that happen to consist of ASCII digits / hex digits / letters are ordinary secrets
+    import base64
+    for v in [1, 0x4f3edf983ac636a65a842ce7c78d9aa706d3b113bce9c46f30d7d21715b23b1d, rng.randrange(1, N), N - 1]:
+        h = "%064x" % v
+        for t in (h, h.upper(), "0x" + h, "0X" + h.upper(), h[:32], h + h, str(v), base64.b64encode(bytes.fromhex(h)).decode(), h + "\n", " " + h):
+            cases.append(Case("acct.new " + hx(t.encode()), tags=("text-of-a-key", "len:%d" % len(t))))
+    for alphabet in ("0123456789", "0123456789abcdef", "ABCDEF0123456789", "abcdefghijklmnopqrstuvwxyz", "0", "f", "0x"):
+        for L_ in (32, 64, 66):
+            t = "".join(rng.choice(alphabet) for _ in range(L_))
+            cases.append(Case("acct.new " + hx(t.encode()), tags=("ascii-bytes", "len:%d" % L_)))
     for L in range(0, 65):
         for b in (bytes(L), bytes([0] * max(0, L - 1) + [1])[:L], bytes(rng.getrandbits(8) for _ in range(L)), b"\xff" * L,
                   (b"\x00" * L + bytes.fromhex("%064x" % rng.randrange(1, N)))[-L:] if L else b""):
